@@ -460,6 +460,8 @@ def gen_enums(ctx):
     mk_enum(ctx, 3, [0, 1, 7], "false", ["enums"])  # max discriminant 2^N - 1 is fine
     mk_enum(ctx, 3, [0, None, 2], "false", inv, expect="invalid", rule="missing discriminant")
     mk_enum(ctx, 3, [0, 1, 2], "false", inv, expect="invalid", rule="non-literal discriminant", discr_texts=["0", "1 + 1", "4"])
+    mk_enum(ctx, 3, [0, 1, 2], "false", inv, expect="invalid", rule="float discriminant", discr_texts=["0", "1.5", "4"])
+    mk_enum(ctx, 3, [0, 1, 2], "false", inv, expect="invalid", rule="string discriminant", discr_texts=["0", '"one"', "4"])
     mk_enum(ctx, 2, [0, 1], "false", inv, expect="invalid", rule="cfg variant without conditional", cfgs=[None, "on"])
     mk_enum(ctx, 2, [0, 1], None, inv, expect="invalid", rule="cfg variant without conditional", cfgs=["off", None])
     mk_enum(ctx, 2, [0, 1, 2, 3], "true", inv, expect="invalid", rule="cfg variant with exhaustive=true", cfgs=[None, None, None, "on"])
@@ -572,6 +574,67 @@ def gen_mixed(ctx):
             fields.append(makers[k]("m%d_%s" % (len(fields), k), p))
             idx += 1
         mk_bf(ctx, N, fields, ["mixed", "multi", "profile"])
+
+
+def gen_args(ctx):
+    """the argument list of #[bitfield(…)]: separators, literal forms, unknown and repeated arguments, leftovers"""
+    def fields():
+        return [mk_field("low", "bool", 1, [(0, 0)]), mk_field("x", "native", 8, [(8, 15)])]
+
+    def valid(base, text, default=None, debug=False, extra_consts=None):
+        d = mk_bf(ctx, base, fields(), ["args", "bases"], default=default, debug=debug)
+        d["args_text"] = text.replace("@C", "C_%s" % d["name"].upper())
+        if extra_consts:
+            d["extra_consts"] = extra_consts
+        return d
+
+    def invalid(base, text, rule, item="struct"):
+        d = mk_bf(ctx, base, fields(), ["args", "args-invalid"], expect="invalid", rule=rule, wellformed=False)
+        d["args_text"] = text
+        d["item"] = item
+        return d
+
+    lit = lambda v: {"syntax": "=", "form": "lit", "value": v}
+    valid(32, "u32, frobnicate")
+    valid(32, "u32, some::path")
+    valid(32, "u32, debug,", debug=True)
+    valid(32, "u32, debug, debug", debug=True)
+    valid(32, "u32, default = 3, default: 7", default=lit(7))
+    valid(32, "u32, debug, default = 1", default=lit(1), debug=True)
+    valid(32, "u32, default = 0xDEAD_BEEF", default=lit(0xDEADBEEF))
+    valid(16, "u16, default = 0b1010_0101", default=lit(0xA5))
+    valid(16, "u16, default: 0o17", default=lit(15))
+    valid(32, "u32, default = 7u32", default=lit(7))
+    valid(24, "u24, default = 0xAB_CDEF", default=lit(0xABCDEF))
+    valid(100, "u100, default = 0xF_FFFF_FFFF_FFFF_FFFF_FFFF_FFFF", default=lit(2 ** 100 - 1))
+    valid(128, "u128, default: 340282366920938463463374607431768211455", default=lit(2 ** 128 - 1))
+    # a literal that is not an integer is swallowed by the failed attempt to read one: no default is declared
+    valid(32, 'u32, default = "seven"')
+    valid(32, "u32, default = 1.5")
+    valid(32, "u32, default = true, debug", debug=True)
+    # … and an identifier right behind it is then taken as the default
+    valid(32, 'u32, default = "x" @C', default={"syntax": "=", "form": "const", "value": 0x1234})
+    valid(64, "u64, default = @C, unknown_flag", default={"syntax": "=", "form": "const", "value": 2 ** 63 + 5})
+    invalid(32, "", "no arguments")
+    invalid(32, None, "no argument list")
+    invalid(32, "u32 = 5", "tokens after the base type")
+    invalid(32, "core::u32", "base type is not a single identifier")
+    invalid(32, "u32, default 5", "default without separator")
+    invalid(32, "u32, default", "default without separator")
+    invalid(32, "u32, default = -1", "negative default")
+    invalid(32, "u32, default = -0", "negative default")
+    invalid(32, "u32, debug = true", "tokens after debug")
+    invalid(32, "u32, default = 5 6", "tokens after the default")
+    invalid(32, "u32, default = (5)", "default is neither literal nor identifier")
+    invalid(32, "u32, default = NO_SUCH_CONSTANT", "unresolved constant")
+    invalid(32, "default = 5, u32", "base type is not first")
+    invalid(32, "debug", "base type missing")
+    invalid(32, "u32,, debug", "empty argument")
+    invalid(32, "u32, frobnicate = 1", "tokens after an unknown argument")
+    invalid(32, "u32, default = 0x1_0000_0000", "default does not fit the base")
+    invalid(24, "u24, default = 0x100_0000", "default does not fit the base")
+    invalid(32, "u32", "not a struct", item="enum")
+    invalid(32, "u32, debug", "not a struct", item="union")
 
 
 def cover_fields(ctx, N, prefix="c"):
@@ -870,8 +933,24 @@ def gen_invalid(ctx):
     raw(32, "u3", ["bits([0..=2,], rw)"], "trailing comma in list (accepted)")
     raw(32, "u3", ["bits(0..=2 rw)"], "missing comma")
     raw(32, "u3", ["bits(0..=2, r, w)"], "r and w separately (accepted)")
-    # the two marked 'accepted' are in fact valid; fix their expectation
-    for d in ctx.decls[-14:]:
+    # field types that are not paths, malformed Option types (found uncovered by harness/coverage.py)
+    raw(32, "(u8, u8)", ["bits(0..=15, rw)"], "tuple type", width=16)
+    raw(32, "&'static u8", ["bits(0..=7, rw)"], "reference type", width=8)
+    raw(32, "[u8]", ["bits(0..=7, rw)"], "slice type", width=8)
+    raw(32, "[u4; 2]", ["bits(0..=3, rw)"], "nested array type", width=4, count=2)
+    raw(32, "Option", ["bits(0..=1, rw)"], "Option without generic arguments")
+    raw(32, "Option<%s, %s>" % (e2["name"], e2["name"]), ["bits(0..=1, rw)"], "Option with two generic arguments")
+    raw(32, "Option<'static>", ["bits(0..=1, rw)"], "Option with a lifetime argument")
+    raw(32, "Option<3>", ["bits(0..=1, rw)"], "Option with a const argument")
+    raw(32, "u3", ["bits(0..=18446744073709551615, rw)"], "upper limit usize::MAX")
+    raw(32, "u3", ["bits(0..+2, rw)"], "invalid punctuation in a range")
+    raw(32, "u3", ["bits(0.=2, rw)"], "single period in a range")
+    raw(32, "u3", ["bits(0;2, rw)"], "semicolon in a range")
+    raw(128, e2["name"], ["bits([0..=127, 0], rw)"], "custom type over 129 bits")
+    raw(32, "u3", ["bits(0..=2, rw, stride = 4)"], "stride on a scalar")
+    raw(32, "u3", ["bits(2..=0, rw)"], "reversed range")
+    # the ones marked 'accepted' are in fact valid; fix their expectation
+    for d in ctx.decls[-30:]:
         if d["rule"].endswith("(accepted)"):
             d["expect"] = "valid"
             d["classes"] = ["malformed-valid"]
@@ -896,6 +975,7 @@ def generate(seed, tier):
     gen_enums(ctx)
     gen_multi(ctx)
     gen_mixed(ctx)
+    gen_args(ctx)
     gen_builder(ctx)
     gen_access(ctx)
     gen_debug(ctx)
